@@ -1,5 +1,6 @@
 import SignalModel.Spec
 import SignalProofs.Lemmas.FloatOps
+import SignalProofs.Lemmas.Decode
 /-!
 # C08 — floating-to-fixed conversion clips, then maps [−1,1] linearly
 
@@ -252,9 +253,6 @@ theorem rank_mono (a b : FV) (ha : a ≠ .nan) (hb : b ≠ .nan) (h : FV.le a b 
     | fin q =>
       simp only [FV.le, FV.toRat?, decide_eq_true_eq] at h
       exact clampm p q h
-
-/-- `v` is a float64 value: converting it to float64 changes nothing -/
-def IsF64 (v : FV) : Prop := FV.conv f64 v = v
 
 theorem consts (w : Nat) (hw : W3 w) :
     (⟨w, true⟩ : IntTy).wrap (maxSignedValue w) = M w ∧
@@ -574,6 +572,24 @@ theorem range (sg : Bool) (w : Nat) (hw : W3 w) (v : FV) :
     · have := ampQ_bounds w hw (rank v) (by linarith) (by linarith); exact ⟨this.1, this.2.1⟩
   unfold C08.rangeOK code
   cases sg <;> simp [l1, l2, l4, l5] <;> omega
+
+/-- **what the driver replays**: for every float32/float64 cell (any bit pattern that is not a NaN) and
+every signed destination kind of width 8, 16 or 32, the dispatched kernel returns `code` -/
+theorem kernel_signed (s d : Kind) (hd : d.isSigned = true) (hw : W3 d.width) (sb : Nat) (x : Int)
+    (hn : cellToFV s x ≠ .nan) :
+    kernel .floatAsSigned s sb d d.width x = some (code true d.width (cellToFV s x)) := by
+  have hi : d.intTy = ⟨d.width, true⟩ := by simp [Kind.intTy, hd]
+  have := kernel_code true d.width hw (cellToFV s x) hn (cell_isF64 s x)
+  simp only [if_true] at this
+  unfold kernel; rw [hi]; exact this
+
+theorem kernel_unsigned (s d : Kind) (hd : d.isSigned = false) (hw : W3 d.width) (sb : Nat) (x : Int)
+    (hn : cellToFV s x ≠ .nan) :
+    kernel .floatAsUnsigned s sb d d.width x = some (code false d.width (cellToFV s x)) := by
+  have hi : d.intTy = ⟨d.width, false⟩ := by simp [Kind.intTy, hd]
+  have := kernel_code false d.width hw (cellToFV s x) hn (cell_isF64 s x)
+  simp only [Bool.false_eq_true, if_false] at this
+  unfold kernel; rw [hi]; exact this
 
 /-- non-vacuity: concrete float64 values satisfy `IsF64`, and the model evaluates as the theorems say -/
 example : IsF64 (.fin (1/2)) ∧ IsF64 (.inf false) ∧ IsF64 .nzero ∧ IsF64 (.fin (-3/2)) ∧
